@@ -191,7 +191,7 @@ def isBinaryCtx (c : Ctx α) (d : List (DomVar α)) : Bool :=
     isBoolVar d n && ((Arith.eq k one && Arith.eq c.rhs zero) || (Arith.eq k (ofInt (-1)) && Arith.eq c.rhs one))
   | _ => false
 
-partial def expVars : Exp α → List String
+def expVars : Exp α → List String
   | .num _ => []
   | .var s => [s]
   | .abs e | .not e | .un _ e => expVars e
